@@ -181,6 +181,31 @@ func buildCorpus(caseFiles []string, repo string, tier string, rng *rand.Rand) (
 			}
 		}
 	}
+	// well-formed files the sampled grammar cases may not contain: the longest legal iCCP name,
+	// more than a MiB of ancillary data ahead of the image data in each format
+	for k, spec := range []struct{ fmt, file string }{
+		{"png", `[{"t":"IHDR","w":9,"h":8,"d":8,"ct":2,"il":0},{"t":"iCCP","name":79,"method":0,"z":"ok6","pid":3,"cross":false},{"t":"IDAT"},{"t":"IEND"}]`},
+		{"png", `[{"t":"IHDR","w":9,"h":8,"d":8,"ct":2,"il":0},{"t":"iCCP","name":1,"method":0,"z":"ok6","pid":3,"cross":false},{"t":"anc","size":"pad:1600000"},{"t":"IDAT"},{"t":"IEND"}]`},
+		{"png", `[{"t":"IHDR","w":9,"h":8,"d":8,"ct":2,"il":0},{"t":"anc","size":"pad:1100000"},{"t":"anc","size":"pad:300000"},{"t":"IDAT"},{"t":"IEND"}]`},
+		{"webp", `[{"t":"VP8X","iccf":true,"alpha":false,"exif":false,"xmp":false,"w":700,"h":3},{"t":"ICCP","pid":8,"cross":true},{"t":"VP8","w":5,"h":6,"ws":0,"hs":0}]`},
+	} {
+		c := concrete.Case{Fmt: spec.fmt, File: mustFile(spec.file)}
+		b := concrete.Build(c, 0)
+		it := item{Name: fmt.Sprintf("%s:extra%d", spec.fmt, k), Fmt: spec.fmt, Data: b.Data, L: b.Layout, HasICC: b.HasICC, Well: true}
+		items = append(items, it)
+		if d, l, ok := bigTail(c, b, 1<<20); ok {
+			items = append(items, item{Name: it.Name + "+big", Fmt: spec.fmt, Data: d, Tail: 1 << 20, L: l, HasICC: b.HasICC, Well: true})
+		}
+	}
+	{ // JPEG: 20 full-size COM segments (1.3 MiB) ahead of the frame header
+		segs := []gen.JSeg{gen.SOI(), gen.JFIF()}
+		for q := 0; q < 20; q++ {
+			segs = append(segs, gen.COM(gen.Payload(65533, uint32(q), true)))
+		}
+		segs = append(segs, gen.DQT(0), gen.SOF(0xC0, 8, 21, 34, gen.StdComps(3, 0x22)), gen.DHT(0, 0), gen.SOS(3, gen.EntropyBytes(120, 5)), gen.EOI())
+		d, l := gen.BuildJPEG(segs)
+		items = append(items, item{Name: "jpeg:extra-com", Fmt: "jpeg", Data: d, L: l, Well: true})
+	}
 	// junk, polyglots, degenerate inputs
 	sig := gen.PNGSig
 	junk := map[string][]byte{
@@ -281,6 +306,9 @@ func schedules(rng *rand.Rand, total int, tier string) []obs.Sched {
 	}
 	s = append(s, obs.Sched{Name: "full+eof", WithErr: true})
 	s = append(s, obs.Sched{Name: "fixed7+eof", Sizes: []int{7}, Cyclic: true, WithErr: true})
+	s = append(s, obs.Sched{Name: "full+idle2", IdleEvery: 2})
+	s = append(s, obs.Sched{Name: "fixed7+idle3", Sizes: []int{7}, Cyclic: true, IdleEvery: 3})
+	s = append(s, obs.Sched{Name: "fixed4097+idle5+eof", Sizes: []int{4097}, Cyclic: true, IdleEvery: 5, WithErr: true})
 	nr := 3
 	if tier == "thorough" {
 		nr = 10
@@ -632,6 +660,15 @@ func loadsCmd(args []string) error {
 			}
 			for _, l := range loaders {
 				jobs = append(jobs, job{it, l})
+			}
+			// the input that ends exactly where the profile-carrying structure ends (the last bytes
+			// of the profile may then arrive together with EOF)
+			if it.HasICC && it.L.ICCEnd > 0 && it.L.ICCEnd < len(it.Data) {
+				cutIt := it
+				cutIt.Name, cutIt.Data = it.Name+"@iccend", it.Data[:it.L.ICCEnd]
+				for _, l := range loaders {
+					jobs = append(jobs, job{cutIt, l})
+				}
 			}
 		}
 		var mu sync.Mutex
